@@ -254,6 +254,30 @@ fn k_mpk_publishes_activated_fronts() {
     std::mem::forget(msk);
 }
 
+/// Lighter twin of `k_mpk_publishes_activated_fronts` (one right, chain of two): the published key is the image of
+/// the FRONT secret and exists iff the front is activated -- never an older secret.
+#[kani::proof]
+#[kani::unwind(4)]
+#[kani::stub(zeroize::optimization_barrier, nop_barrier)]
+#[kani::stub(alloc::fmt::format, no_format)]
+fn k_mpk_front_single_right() {
+    let h = distinct4();
+    let act0: bool = kani::any();
+    let s = elt();
+    let mut msk = mk_msk(s);
+    msk.secrets.map.insert(r0(), ll![(act0, secret(h[0], false)), (true, secret(h[1], false))]);
+    let mpk = msk.mpk().unwrap();
+    kani::cover!(!act0, "front disabled, older secret activated");
+    let pk0 = mpk.encryption_keys.get(&r0());
+    assert!(pk0.is_some() == act0, "mpk publishes a key for a right whose front secret is disabled");
+    if let Some(RightPublicKey::Classic { H }) = pk0 {
+        let hpt = ToyPoint::from(&ToyScalar::new(s));
+        assert!(*H == &hpt * &ToyScalar::new(h[0]), "public key is not the image of the front secret");
+    }
+    std::mem::forget(mpk);
+    std::mem::forget(msk);
+}
+
 /// C09 + C10 T-rekey: rekey over {known, unknown} fails and leaves the master key as it was,
 /// whatever the processing order of the set.
 macro_rules! rekey_unknown_harness {
@@ -559,3 +583,102 @@ macro_rules! refresh_unknown_harness {
 }
 refresh_unknown_harness!(k_refresh_unknown_id_keep, true);
 refresh_unknown_harness!(k_refresh_unknown_id_nokeep, false);
+
+/// C09 (light): `refresh(keep_old=false)` of an issued key holding ONLY a right that the master key no longer has:
+/// Ok, and the key ends up without that right (the smallest state that reaches the "right deleted since" path).
+#[kani::proof]
+#[kani::unwind(4)]
+#[kani::stub(zeroize::optimization_barrier, nop_barrier)]
+#[kani::stub(alloc::fmt::format, no_format)]
+fn k_refresh_only_right_deleted_nokeep() {
+    let h = distinct4();
+    let mut msk = mk_msk(elt());
+    msk.tsk.users.insert(UserId(ll![ToyScalar::new(3), ToyScalar::new(5)]));
+    let mut rv = RevisionVec::new();
+    rv.create_chain_with_single_value(r0(), secret(h[0], false));
+    let mut usk = UserSecretKey {
+        id: UserId(ll![ToyScalar::new(3), ToyScalar::new(5)]),
+        ps: Vec::new(),
+        secrets: rv,
+        signature: None,
+    };
+    let mut rng = SymRng;
+    let res = refresh(&mut rng, &mut msk, &mut usk, false);
+    kani::cover!(true, "reached");
+    assert!(res.is_ok(), "refresh of an issued key must succeed whatever was deleted in between");
+    assert!(usk.secrets.len() == 0, "the deleted right must leave the key");
+    assert!(id_is(&usk, 3, 5));
+    std::mem::forget(res);
+    std::mem::forget(usk);
+    std::mem::forget(msk);
+}
+
+
+// ------------------------------------------------------------------------------------------------
+// usk_keygen: C17 (id registered, tracing relation, tracer points embedded), C09 / C10 (unknown right)
+// ------------------------------------------------------------------------------------------------
+#[kani::proof]
+#[kani::unwind(4)]
+#[kani::stub(zeroize::optimization_barrier, nop_barrier)]
+#[kani::stub(alloc::fmt::format, no_format)]
+fn k_keygen_registers_valid_id() {
+    let h = distinct4();
+    let s = elt();
+    let mut msk = mk_msk(s);
+    msk.secrets.map.insert(r0(), ll![(true, secret(h[0], false)), (true, secret(h[1], false))]);
+    let mut rng = SymRng;
+    let mut set = HashSet::new();
+    set.insert(r0());
+    let res = usk_keygen(&mut rng, &mut msk, set);
+    kani::cover!(true, "reached");
+    assert!(res.is_ok(), "key generation for rights the master key holds must succeed");
+    let usk = res.unwrap();
+    // C17: the id is recorded in the master key and satisfies sum a_i * t_i = s (tracers are 1 and 2 here)
+    assert!(msk.tsk.is_known(&usk.id) && msk.tsk.users.len() == 1, "the id of an issued key must be registered");
+    {
+        let mut it = usk.id.iter();
+        let a0 = it.next().unwrap();
+        let a1 = it.next().unwrap();
+        assert!(it.next().is_none());
+        assert!(&(a0 * &ToyScalar::new(1)) + &(a1 * &ToyScalar::new(2)) == ToyScalar::new(s), "markers x tracers must give the binding scalar");
+    }
+    // C17: the tracing points embedded in the key are the master's public tracers, in order
+    assert!(usk.ps.len() == 2 && usk.ps[0] == ToyPoint::from(&ToyScalar::new(1)) && usk.ps[1] == ToyPoint::from(&ToyScalar::new(2)));
+    // C04: a new key gets exactly the NEWEST secret of each right
+    assert!(usk.secrets.len() == 1);
+    {
+        let (_, c) = usk.secrets.iter().next().unwrap();
+        assert!(c.len() == 1 && sk_of(c.front().unwrap()) == h[0], "a new key must hold exactly the newest secret of its right");
+    }
+    assert!(usk.signature.is_none());
+    std::mem::forget(usk);
+    std::mem::forget(msk);
+}
+
+/// C09 + C10: key generation for a right the master key does not hold fails and registers no id.
+#[kani::proof]
+#[kani::unwind(4)]
+#[kani::stub(zeroize::optimization_barrier, nop_barrier)]
+#[kani::stub(alloc::fmt::format, no_format)]
+fn k_keygen_unknown_right_atomic() {
+    let h = distinct4();
+    let mut msk = mk_msk(elt());
+    msk.secrets.map.insert(r0(), ll![(true, secret(h[0], false))]);
+    let mut rng = SymRng;
+    let mut set = HashSet::new();
+    let known_first: bool = kani::any();
+    if known_first {
+        set.insert(r0());
+        set.insert(Right(vec![7]));
+    } else {
+        set.insert(Right(vec![7]));
+        set.insert(r0());
+    }
+    let res = usk_keygen(&mut rng, &mut msk, set);
+    kani::cover!(known_first, "held right first");
+    assert!(res.is_err(), "key generation for a right the master key does not hold must fail");
+    assert!(msk.tsk.users.len() == 0, "a failed key generation registered a user id");
+    assert!(msk.secrets.len() == 1 && msk.secrets.get(&r0()).unwrap().len() == 1);
+    std::mem::forget(res);
+    std::mem::forget(msk);
+}
